@@ -383,7 +383,7 @@ class Spreadsheet:
         column named ``format``. The dtypes are assigned according to the
         following possibilities for that field:
 
-        - ``text`` or ``title`` -> dtype: 20-character str
+        - ``text`` or ``title`` -> dtype: str (any length)
         - sequence of zeros with a dot somewhere -> dtype: float
         - sequence of zeros with no dot -> dtype: int
 
@@ -404,7 +404,7 @@ class Spreadsheet:
         ind = np.where(ac['tagname'] == tagname.lower())[0][0]
 
         if ac['format'][ind] in 'text title':
-            dt = 'U20'
+            dt = object
         elif '.' in ac['format'][ind]:
             dt = np.float64
         else:
